@@ -159,7 +159,7 @@ Definition step (st : rstate) (op : list tok) : rstate * list tok :=
       | Some x, Some y =>
         let d := diff x y in
         let '(z, n) := replay (fp_of st) (names_of st) (hc_of st) steps_of d x in
-        (st, [tn (N.of_nat (List.length d)); tn (N.of_nat n); nb (bool_decide (norm z = norm y))])
+        (st, [tn (N.of_nat (List.length d)); tn (N.of_nat n); nb (bool_decide (norm_set z = norm_set y))])
       | _, _ => (st, [])
       end
     else
